@@ -665,18 +665,24 @@ func runParent(args []string) error {
 		}
 		t0 := time.Now()
 		ok := false
-		if rep, err := s2.request(sim.Patience(10*time.Second), sim.TDownloadFile, sim.Fld(sim.FFileName, []byte("file.txt"))); err == nil && rep.Err == 0 {
+		rep, err := s2.request(sim.Patience(10*time.Second), sim.TDownloadFile, sim.Fld(sim.FFileName, []byte("file.txt")))
+		if err != nil { // retried once, like the control-port probes
+			rep, err = s2.request(sim.Patience(10*time.Second), sim.TDownloadFile, sim.Fld(sim.FFileName, []byte("file.txt")))
+		}
+		if err == nil && rep.Err == 0 {
 			if ref, _ := rep.Get(sim.FRefNum); len(ref) == 4 {
 				if x, err := dialFrom(net.IPv4(127, 0, 0, 3), tport); err == nil {
 					_, _ = x.Write(preamble(ref, 0))
 					got := 0
 					buf := make([]byte, 4096)
-					deadline := time.Now().Add(sim.Patience(10 * time.Second))
+					deadline := time.Now().Add(sim.Patience(20 * time.Second))
+					var all []byte
 					for time.Now().Before(deadline) && !ok {
 						_ = x.SetReadDeadline(time.Now().Add(200 * time.Millisecond))
 						n, err := x.Read(buf)
 						got += n
-						if bytes.Contains(buf[:n], []byte("this is a file")) {
+						all = append(all, buf[:n]...)
+						if bytes.Contains(all, []byte("this is a file")) {
 							ok = true // the data fork arrived
 						}
 						if err != nil {
